@@ -374,6 +374,7 @@ inductive Act where
   | txnPinned (th : Tid) (m : Mode) (t : Nat)
   | txnLocked (th : Tid)
   | lockBegin (th : Tid)
+  | scanBatch (th : Tid) (n : Nat)
   | commitBegin (th : Tid)
   | commitA (th : Tid)
   | append (th : Tid)
@@ -560,6 +561,13 @@ def stepTxnLocked (s : Sys) (th : Tid) : Option Sys :=
     if t.mode != .upd || heldBy s t.tab != some th then none
     else some s
 
+/-- `scan.batch`: `TableScanExecutor` fetched a batch.  The executor's read transaction — and with
+it the version pin — lives from before the scan is opened until the stream ends, so a batch is
+only ever fetched while the scan thread holds a pin (that is the hypothesis of
+`reader_sees_start_snapshot`, here an observed event). -/
+def stepScanBatch (s : Sys) (th : Tid) (_n : Nat) : Option Sys :=
+    if (getTh s th).mode == .ro && s.k.pins.any (fun p => p.1 == th) then some s else none
+
 /-- `txn.lock.begin`: an update txn is about to await the table lock (nothing shared changes) -/
 def stepLockBegin (s : Sys) (_th : Tid) : Option Sys :=
     some s
@@ -741,6 +749,7 @@ def astep (s : Sys) : Act → Option Sys
   | .txnPinned th m tb => stepTxnPinned s th m tb
   | .txnLocked th => stepTxnLocked s th
   | .lockBegin th => stepLockBegin s th
+  | .scanBatch th n => stepScanBatch s th n
   | .commitBegin th => stepCommitBegin s th
   | .commitA th => stepCommitA s th
   | .panic th => stepPanic s th
